@@ -2745,9 +2745,14 @@ void Analyser::AnalyserImpl::analyseModel(const ModelPtr &model)
                     primaryExternalVariable->second.push_back(variable);
                 }
 
-                if (!internalVariable->mIsExternal) {
-                    internalVariable->mIsExternal = true;
+                internalVariable->mIsExternal = true;
 
+                // Track the dependencies of the external variable.
+                // Note: several equivalent variables may have been marked as
+                //       external, each with its own dependencies, so we track
+                //       all of them (once).
+
+                {
                     for (const auto &dependency : externalVariable->dependencies()) {
                         // A dependency was in the model when it was added, but it may have left it since.
                         if (owningModel(dependency) != model) {
@@ -2767,7 +2772,11 @@ void Analyser::AnalyserImpl::analyseModel(const ModelPtr &model)
                             continue;
                         }
 
-                        internalVariable->mDependencies.push_back(Analyser::AnalyserImpl::internalVariable(dependency)->mVariable);
+                        auto dependencyVariable = Analyser::AnalyserImpl::internalVariable(dependency)->mVariable;
+
+                        if (std::find(internalVariable->mDependencies.begin(), internalVariable->mDependencies.end(), dependencyVariable) == internalVariable->mDependencies.end()) {
+                            internalVariable->mDependencies.push_back(dependencyVariable);
+                        }
                     }
                 }
             }
